@@ -49,9 +49,9 @@ func trig(res *Result, keys ...string) bool {
 func init() {
 	props["C14"] = histSpec("C14", histProfile("C14", map[string]int{"custom": 40}, func(p *Profile) { p.MinMembers = 3 }),
 		"distinct run digests in which at least one custom message was accepted", func(r *Result) bool { return trig(r, "op:custom") })
-	props["C01"] = histSpec("C01", histProfile("C01", nil, func(p *Profile) { p.PBlock = 0.08; p.PProbe = 0.1 }),
+	props["C01"] = histSpec("C01", histProfile("C01", nil, func(p *Profile) { p.PBlock = 0.08; p.PFocus = 0.4; p.PProbe = 0.1 }),
 		"distinct run digests with an accepted state change and at least one probe/late joiner", func(r *Result) bool { return trig(r, "op:join") })
-	props["C02"] = histSpec("C02", histProfile("C02", nil, func(p *Profile) { p.MinMembers = 3; p.PBlock = 0.08 }),
+	props["C02"] = histSpec("C02", histProfile("C02", nil, func(p *Profile) { p.MinMembers = 3; p.PBlock = 0.08; p.PFocus = 0.3 }),
 		"distinct run digests with at least one accepted relayed change in a session of >= 2", func(r *Result) bool { return trig(r) })
 	props["C04"] = histSpec("C04", histProfile("C04", nil, func(p *Profile) { p.PBurst = 0.1 }),
 		"distinct run digests with at least one accepted and one refused request", func(r *Result) bool { return trig(r) })
@@ -59,6 +59,7 @@ func init() {
 		p.MinMembers = 2
 		p.PClose = 0.07
 		p.PBlock = 0.04
+		p.PFocus = 0.3
 		p.BlockOps = []string{"joiner", "joiner", "entity_add", "entity_delete", "pose"}
 	}),
 		"distinct run digests with an ownership decision (delete/pose/asset on an entity)", func(r *Result) bool { return trig(r, "op:entity_delete", "op:pose", "op:asset_add") })
@@ -68,12 +69,14 @@ func init() {
 		p.PProbe = 0.1
 		p.PDie = 0.5
 		p.PBlock = 0.06 // a departure overlapping a join or another member's change
+		p.PFocus = 0.3
 		p.BlockOps = []string{"close", "close", "switch", "joiner", "joiner", "entity_add", "comp_add", "action"}
 	}),
 		"distinct run digests with a departure of a member that owned entities", func(r *Result) bool { return trig(r, "departure", "server_ended") })
 	props["C12"] = histSpec("C12", histProfile("C12", map[string]int{"type_add": 10, "comp_add": 16, "comp_delete": 9, "comp_update": 10, "comp_list": 8, "entity_delete": 8, "type_get_name": 3, "type_get_id": 3}, func(p *Profile) {
 		p.PClose = 0.06
-		p.PBlock = 0.05
+		p.PBlock = 0.06
+		p.PFocus = 0.4
 		p.BlockOps = []string{"type_add", "type_add", "comp_add", "comp_delete", "entity_delete"}
 	}),
 		"distinct run digests with an accepted component operation", func(r *Result) bool { return trig(r, "op:comp_add") })
@@ -82,6 +85,7 @@ func init() {
 		p.PClose = 0.05
 		// an unsubscribe (or a departure) arriving while a notification is on its way
 		p.PBlock = 0.08
+		p.PFocus = 0.3
 		p.BlockOps = []string{"unsubscribe", "unsubscribe", "comp_update", "comp_update", "comp_update", "subscribe", "comp_add", "comp_delete", "close"}
 	}),
 		"distinct run digests with a subscription and a component change", func(r *Result) bool { return trig(r, "op:subscribe") && trig(r, "op:comp_add", "op:comp_update") })
